@@ -196,7 +196,7 @@ def run(ctx):
                                                                       "Restrict": True},
                                                            constraints=["Emit"]), workers=1).tagged_json("MSG")
         two = [p for p in two if len(p) > 1]
-        if len(one) < 150 or len(two) < 500:
+        if len(one) < 150 or len(two) < 400:
             raise core.MachineryError("message dump too small: %d, %d" % (len(one), len(two)))
         if ctx.quick:
             import random
